@@ -4,6 +4,7 @@
 -/
 import SH.Lemmas.Delivery
 import SH.Lemmas.DeliveryRace
+import SH.Lemmas.DeliveryEraser
 namespace SH.Delivery
 open SH.Gen.C01
 
@@ -25,6 +26,7 @@ theorem sinv_step {s : State} (op : Op) (h : SInv s []) : SInv (step s op).1 [] 
   | diskOk b => exact sinv_diskOk b h
   | bad r => exact sinv_bad r h
   | tickRace r n1 n2 rid ok => exact sinv_tickRace r n1 n2 rid ok h
+  | erase now over => exact sinv_erase now over h
 
 theorem sinv_init (disk saveFirst : Bool) (agentNow window shortWindow aggNow : Nat) :
     SInv (init disk saveFirst agentNow window shortWindow aggNow) [] := by
@@ -114,6 +116,7 @@ theorem flushed_step (s : State) (op : Op) : ∀ t ∈ s.flushed, t ∈ (step s 
   | diskOk b => exact ht
   | bad r => simp only [step, stepBad]; (repeat' split) <;> exact ht
   | tickRace r n1 n2 rid ok => rw [(tickRace_frame s r n1 n2 rid ok).2]; exact ht
+  | erase now over => exact ht
 
 /-! ### which operations can make a disk record disappear -/
 
@@ -315,6 +318,35 @@ theorem failFlights_keeps {fs : List Flight} {s : State} {r : Rec} (h : SInv s [
             · exact ihg _ t (agentContinue_dropped_mono ht)
         exact mono fs _ _ h2
 
+/-- the eraser removes a disk record only together with recording its second as a deliberate drop -/
+theorem eraserStep_recs_mem {P : Nat → Prop} {a : Agent} {now : Nat} {over : Bool} {r : Rec} (h : AInv P a [])
+    (hr : r ∈ a.recs) (hid : r.id ≠ 0) :
+    r ∈ (eraserStep a now over).recs ∨ r.sec ∈ (eraserStep a now over).dropped := by
+  unfold eraserStep
+  cases hp : pop a now with
+  | mk a' oc =>
+    cases oc with
+    | none => exact Or.inl hr
+    | some c =>
+      simp only
+      have hr' : r ∈ a'.recs := by have := pop_recs_mem (now := now) hr hid; rw [hp] at this; exact this
+      have hk := keeps_pop h hp
+      have drop : ∀ o, r ∈ ({ diskErase a' c.id with dropped := a'.dropped ++ [c.sec], oow := o } : Agent).recs ∨
+          r.sec ∈ ({ diskErase a' c.id with dropped := a'.dropped ++ [c.sec], oow := o } : Agent).dropped := by
+        intro o
+        by_cases he : r.id = c.id
+        · right
+          have := hk.1.cbdRec c (by simp [mem_cbds]) r hr' he (by rw [← he]; exact hid)
+          simp [this]
+        · left
+          have := diskErase_recs_mem (a := a') hr' he
+          unfold diskErase at this ⊢; split <;> simp_all
+      split
+      · exact drop _
+      · split
+        · exact drop _
+        · left; rw [appendHist_recs]; exact hr'
+
 /-- **which operations make a disk record of the agent disappear.** In a reachable state, for every operation other than a
 process restart (which re-reads the same records under new ids), a record that is no longer on disk afterwards was erased
 because an answer with discard was delivered to the sender whose request carried that second, or because the second left
@@ -431,6 +463,7 @@ theorem erase_step {s : State} (h : SInv s []) (op : Op) (hop : ∀ c, op ≠ .a
   | diskOk b => exact Or.inl hr
   | bad r' => simp only [step, stepBad]; (repeat' split) <;> exact Or.inl hr
   | tickRace r' n1 n2 rid ok => left; rw [(tickRace_frame s r' n1 n2 rid ok).1]; exact hr
+  | erase now over => exact lift (eraserStep_recs_mem h.ag hr hid)
 
 theorem readNext_secs {a : Agent} {r : Rec} (h : r ∈ a.recs) : ∃ r' ∈ (readNext a).recs, r'.sec = r.sec := by
   unfold readNext
